@@ -20,6 +20,9 @@ def err_len(bpt):
     return 1 + math.floor(bpt)
 
 
+GAP_PIECE_INPUTS = set()  # inputs explored with every orientation pattern of their three pieces
+
+
 def inputs_for(bpt, tier):
     e = err_len(bpt)
     scale = max(1, round(bpt / 2.5)) if bpt > 100 else 1
@@ -75,6 +78,16 @@ def inputs_for(bpt, tier):
     for st in ((1, 1, 1), (1, -1, 1)):
         out.append((("scaffold_1", pv.scaffold_rows("tpf", "scaffold_1", (2 * e + 1, e, 8 * e + 4), ((), (("G", 2, "scaffold"),)), st)),))
         out.append((("scaffold_1", pv.scaffold_rows("tpf", "scaffold_1", (8 * e + 4, e, 2 * e + 1), ((("G", 7, "contig"),), (("G", 2, "scaffold"),)), st)),))
+    # a piece lying mostly in a gap wider than a texel (a single-row lookup that the trimming step skips) next to a long
+    # contig, and a short last contig that the bait of the last piece overlaps by less than a texel
+    for style in ("tpf", "fasta"):
+        for c in sorted({1, max(1, e - 1), e}):
+            for g2 in (2, e + 3):
+                for st in ((1, 1, 1), (1, -1, 1)) if style == "tpf" else ((1, 1, 1),):
+                    out.append(
+                        (("scaffold_1", pv.scaffold_rows(style, "scaffold_1", (4 * e, 8 * e + 4, c), ((("G", 3 * e, "scaffold"),), (("G", g2, "scaffold"),)), st)),)
+                    )
+                    GAP_PIECE_INPUTS.add(out[-1])
     _ = scale
     return out
 
@@ -89,7 +102,7 @@ class C02(Check):
         "non-empty piece cores and deep cuts; base-map oracle for the four clauses of the statement"
     )
     rule = (
-        "case = (input assembly, PretextView script). inputs: 1 scaffold of 1-2 contigs (thorough: also 3) / 2 scaffolds, lengths "
+        "case = (input assembly, PretextView script). inputs (besides the families named at the end): 1 scaffold of 1-2 contigs (thorough: also 3) / 2 scaffolds, lengths "
         "{1,E,2E+1,8E+4}, separators {none, gap 2, gap 4E|200}, both strands, TPF and FASTA naming; bpt {1,2.5} (thorough + 4, 1685.845245); "
         "scripts: all cut sets on texel boundaries within 3E+2 of a row boundary or nearest a row middle, pieces >= 2 texels, <= 3 pieces, "
         "floor/ceil texel counts, all permutations x groupings x orientation patterns, painted patterns {none, all, alternating}. "
@@ -161,6 +174,9 @@ class C02(Check):
                 arrs = pv.arrangements(n) if n < 3 else pv.arrangements_reduced(n)
                 if chain and not full:
                     arrs = [tuple(((i, 1),) for i in range(n)), (tuple((i, 1) for i in range(n)),), tuple(((i, -1 if i % 2 else 1),) for i in reversed(range(n)))]
+                if inp in GAP_PIECE_INPUTS and n == 3:
+                    arrs = [tuple(((i, o[i]),) for i in range(3)) for o in itertools.product((1, -1), repeat=3)]
+                    arrs += [(tuple((i, o[i]) for i in range(3)),) for o in itertools.product((1, -1), repeat=3)]
                 for arr in arrs:
                     pats = pv.painted_patterns(len(arr), full=False)
                     if n == 3:
@@ -180,3 +196,5 @@ class C02(Check):
 
 
 CHECK = C02()
+# scope added in later rounds, kept in the evidence text
+CHECK.rule += ' Gap-piece family: contigs 4E / 8E+4 / {1,E-1,E} with a 3E gap after the first and a short gap before the last, explored with every orientation pattern of the three pieces (separate and joined).'
